@@ -256,6 +256,22 @@ def parseDF (Q : Quirks) (rec : Parser) (c : Ctx) (fields : List (String × Ty))
     (seqM (fun (it : String × Ty × Val) => mapOut (fun r => (it.1, r)) (parseField Q rec c it.2.1 it.2.2))
       (knownItems fields kvs))
 
+/-- is the data key a declared field -/
+def isKnown (fields : List (String × Ty)) (kv : Key × Val) : Bool :=
+  match kv.1 with
+  | .str s => (fields.lookup s).isSome
+  | .int _ => false
+
+def hasUnknown (fields : List (String × Ty)) (kvs : List (Key × Val)) : Bool := kvs.any fun kv => !isKnown fields kv
+
+/-- the data keys before the first undeclared one -/
+def knownPrefix (fields : List (String × Ty)) (kvs : List (Key × Val)) : List (Key × Val) := kvs.takeWhile (isKnown fields)
+
+/-- an undeclared key is an error when additions are forbidden (`parse_addition`, base.py: `addition is False`
+→ ExceedError): whatever was parsed before it has been paid for -/
+def failIf {β} (b : Bool) (o : Out β × Nat) : Out β × Nat :=
+  if b then (match o with | (.ok _, n) => (.err {}, n) | (.err f, n) => (.err f, n)) else o
+
 /-- rule.py:1992-2013: key context route `f"{key}<key>"` (never falsy; keys of the declared key type
 pass by the exact-type shortcut), value context route = the key itself -/
 def parseEntries (Q : Quirks) (rec : Parser) (c : Ctx) (kt : KeyTy) (t : Ty) (kvs : List (Key × Val)) :
@@ -305,7 +321,12 @@ def step (W : World) (Q : Quirks) (E : Env) (rec : Parser) (c : Ctx) (T : Ty) (v
       let c' : Ctx := { depth := c.depth + 1, mode := cd.mode, md := cd.maxDepth }
       match v with
       | .dict kvs =>
-        mapOut (Res.data k) (if cd.dfs then parseDF Q rec c' cd.fields kvs else parseFF Q rec c' cd.fields kvs)
+        -- options.py:151-155: `no_data_loss` forbids additional keys (addition=False); field-first reports them after
+        -- the fields (base.py `if options.addition is not None` loop), data-first at their place in the input
+        let b := cd.mode.noLoss && hasUnknown cd.fields kvs
+        mapOut (Res.data k) (failIf b
+          (if cd.dfs then parseDF Q rec c' cd.fields (if b then knownPrefix cd.fields kvs else kvs)
+           else parseFF Q rec c' cd.fields kvs))
       -- cls.py:569-577: not a Mapping → TypeError / `to_dict` fails on scalars and None
       | _ => (.err {}, 0)
   | .list t =>
